@@ -16,7 +16,8 @@ RULE_TEXT = ("C02-R: on every loop-body path of Interface::run the path variable
              "common headers return no path and look up under the root; C02-F: on every accepting path of parse the returned "
              "call's `terminated` flag is true exactly when the consumer of the unit's end took a newline (false for `;`) "
              "and its `header` is the path the header parser returned; C02-S: every future is awaited in place and the "
-             "crate defines no Future/poll machinery.")
+             "crate defines no Future/poll machinery."
+             " C02-K: the buffer discipline of process (rules K1-K7 of C07) - run is handed one whole message per call.")
 
 COMPOUND = "microscpi::parser::compound_command_program_header"
 COMMON = "microscpi::parser::common_command_program_header"
@@ -36,7 +37,11 @@ def run(ck):
     rule_S(ck, lib)
     import parsefields
     import skeleton
-    parsefields.check(ck, lib, skeleton.Skeleton(ck, lib), "C02-F", ("terminated", "header"))
+    parsefields.check(ck, lib, skeleton.Skeleton(ck, lib), "C02-F", ("terminated", "header", "empty"))
+    # run sees one whole message per call when streaming (else the path context, local to a call of run, is lost at a
+    # read boundary): the buffer discipline of process, as decided for C07
+    import c07
+    c07.rule_K(ck, lib, "C02-K")
 
 
 # ---------------------------------------------------------------- C02-R
